@@ -297,7 +297,17 @@ def run(sim, plan):
     if path == "raw":
         if active and acc[:4] == b"\x00\x00\x00\x0a" and len(acc) >= 14 and acc[9] == rc.SELECT_REQ:
             acc = acc[14:]
-        if not acc.startswith(ok_concat):
+        ok_acc = acc.startswith(ok_concat)
+        if not ok_acc:
+            # the endpoint's own close sequence (Separate.req, written by the protocol thread when the peer half-closes)
+            # may land between two partial writes of the scenario's raw send_data call: two writers on one socket is the
+            # harness's doing on this path, not the transport's
+            i = acc.find(b"\x00\x00\x00\x0a")
+            while i >= 0 and not ok_acc:
+                if len(acc) >= i + 14 and acc[i + 9] == rc.SEPARATE_REQ:
+                    ok_acc = (acc[:i] + acc[i + 14:]).startswith(ok_concat)
+                i = acc.find(b"\x00\x00\x00\x0a", i + 1)
+        if not ok_acc:
             sim.violation("C10.R2", f"sends reported successful carry {len(ok_concat)} bytes, but the socket accepted only "
                           f"{len(acc)} payload bytes (or different ones): success was reported for bytes that were never "
                           f"written; fault={plan.get('fault_kind') if plan['reset_after'] is not None else None}",
